@@ -212,6 +212,20 @@ int main(void)
 				free(t);
 			}
 		}
+		else if (drv_is(&c, "HugeText")) {
+			/* texts of more than 2^31 / 2^32 characters: (0) one unparsable line of 2^31 + 5 characters, (1) a run of
+			 * 2^32 + 3 blanks, each followed by two bytes; the expected result is known by construction */
+			int kind = drv_arg(&c, 0);
+			size_t n = kind ? ((size_t)1 << 32) + 3 : ((size_t)1 << 31) + 5;
+			char *t = malloc(n + 16);
+			if (!t) { fprintf(stderr, "hex_drv: cannot allocate %zu bytes\n", n); return 3; }
+			memset(t, kind ? ' ' : 'z', n);
+			strcpy(t + n, kind ? "a5 5a" : "\na5 5a\n");
+			const char *p = NULL;
+			int r0 = hex_get_byte(t, &p), r1 = hex_get_byte(NULL, &p), r2 = hex_get_byte(NULL, &p), r3 = hex_get_byte(NULL, &p);
+			printf("{\"e\":\"HugeText\",\"kind\":%d,\"r\":[%d,%d,%d,%d]}\n", kind, r0, r1, r2, r3);
+			free(t);
+		}
 		else if (drv_is(&c, "Two")) {
 			drv_srand(drv_arg(&c, 0));
 			int n = drv_arg(&c, 1);
